@@ -395,22 +395,29 @@ REPLACE_RAISES = {
     for n in ('ChildNotValid', 'ChildNotFound', 'MaxChildLimitReached', 'OperationNotAllowed')
 }
 
+REAL_OLD = 'old(old_child._traversal_parent) is not self.element'
+TRAV_OLD = 'old(old_child._traversal_parent) is self.element'
+
 contract(
     'hl7apy.core:ElementList.replace_child',
     sig={'self': 'ElementList', 'old_child': 'Element', 'new_child': 'Element'},
     returns='none',
     requires=['sep(self)', OWNED, 'old_child is not new_child', 'new_child.name == old_child.name',
+              # scope of this contract: the replaced child is a real child (superseding a temporary traversal child
+              # goes through remove + append, each under its own contract; the composition is in the bounded tier)
               'old_child._traversal_parent is not self.element', OLD_LISTED, NEW_NOT_LISTED,
               'new_child._parent is self.element or new_child._traversal_parent is not self.element'],
     ensures=[
         # C09: replacing a child never changes the order of repetitions or of its siblings
-        ('list_in_place', replaced_first_of('self.list', 'old_child', 'new_child')),
-        ('byname_in_place', 'idx_list(self, old_child.name) is old(idx_list(self, old_child.name)) and ' +
+        ('list_in_place', 'implies(%s, %s)' % (REAL_OLD, replaced_first_of('self.list', 'old_child', 'new_child'))),
+        ('byname_in_place', 'implies(%s, idx_list(self, old_child.name) is old(idx_list(self, old_child.name)) and ' % REAL_OLD +
          replaced_first_of('old(idx_list(self, old_child.name))', 'old_child', 'new_child')
          .replace('old(first_pos(old(idx_list(self, old_child.name)), old_child))',
                   'old(first_pos(idx_list(self, old_child.name), old_child))')
          .replace('old(list_len(old(idx_list(self, old_child.name))))', 'old(idx_len(self, old_child.name))')
-         .replace('old(list_at(old(idx_list(self, old_child.name)), k))', 'old(idx_item(self, old_child.name, k))')),
+         .replace('old(list_at(old(idx_list(self, old_child.name)), k))', 'old(idx_item(self, old_child.name, k))') + ')'),
+        # a temporary (traversal) child is simply superseded: the new child is appended
+        ('traversal_superseded', 'implies(%s, %s)' % (TRAV_OLD, appended(list_item, 'len(self.list)', 'new_child'))),
         ('other_names_kept', 'dict_same_except(self.indexes, old_child.name)'),
         ('linked', 'new_child._parent is self.element'),
         ('sep', 'sep(self)'),
@@ -436,6 +443,13 @@ contract(
                      'self._parent is old(self._traversal_parent))'),
         ('traversal_cleared', 'self._traversal_parent is None'),
         ('parent_kept', 'implies(old(self._parent) is not None, self._parent is old(self._parent))'),
+        # tree shape: promotion only touches the containers of the element's ancestors, never its own children
+        ('own_children_untouched', 'self.children is old(self.children) and self.children.list is old(self.children.list) and '
+                                   'self.children.indexes is old(self.children.indexes) and '
+                                   'self.children.traversal_indexes is old(self.children.traversal_indexes) and '
+                                   'self.children.proxies is old(self.children.proxies) and '
+                                   'list_unchanged(self.children.list) and dict_unchanged(self.children.indexes) and '
+                                   'dict_unchanged(self.children.traversal_indexes) and self.children.element is self'),
     ],
     raises={n: {} for n in ('ChildNotValid', 'ChildNotFound', 'MaxChildLimitReached', 'OperationNotAllowed')},
     modifies=None,
@@ -486,4 +500,51 @@ contract(
     modifies=['self.proxies{}'],
     allocates=True,
     properties=['C11', 'C14'],
+)
+
+# ---- ElementList.set (string value): C09 "assignment replaces the addressed repetition in place or appends when
+# absent", C11 "the first write materialises the path", C12 "a rejected assignment leaves the target unchanged"
+contract(
+    'hl7apy.core:Element.parse_child',
+    sig={'self': 'Element', 'text': 'str', 'child_name': 'str?', 'reference': 'any'},
+    returns='Element?',
+    interface=True, verify=False,
+    ensures=[('fresh_detached', 'implies(result is not None, is_fresh(result) and result._parent is None and '
+                                'result._traversal_parent is None)')],
+    raises={'HL7apyException': {'modifies': []}, 'ValueError': {'modifies': []}, 'TypeError': {'modifies': []},
+            'IndexError': {'modifies': []}, 'KeyError': {'modifies': []}, 'AttributeError': {'modifies': []}},
+    modifies=[],
+    allocates=True,
+    properties=['C09'],
+    notes='interface contract of the parser entry points (a detached fresh tree or an exception); the parsers are '
+          'covered by the decoder contracts and the bounded round-trip driver',
+)
+
+CN = 'canon(self.element, upper(name))'
+TARGET = 'old(child_at(self, %s, index))' % CN
+SET_REJECT = {'ensures': [('view_unchanged', 'list_unchanged(self.list) and dict_unchanged(self.indexes)'),
+                          # C12 / C11: a rejected assignment does not materialise the temporary chain either
+                          ('not_promoted', 'self.element._parent is old(self.element._parent) and '
+                                           'self.element._traversal_parent is old(self.element._traversal_parent)')]}
+
+contract(
+    'hl7apy.core:ElementList.set[str]',
+    sig={'self': 'ElementList', 'name': 'str', 'value': 'str', 'index': 'int'},
+    returns='none',
+    requires=['sep(self)', OWNED,
+              'child_at(self, %s, index) is None or child_at(self, %s, index)._traversal_parent is not self.element' % (CN, CN),
+              # the addressed child, if any, is a real child listed under its name (wf I2/I4 for that child)
+              'implies(child_at(self, %s, index) is not None and child_at(self, %s, index)._traversal_parent is not self.element, '
+              'any(self.list[k] is child_at(self, %s, index) for k in range(len(self.list))) and '
+              'any(idx_item(self, %s, k) is child_at(self, %s, index) for k in range(idx_len(self, %s))) and '
+              'child_at(self, %s, index).name == %s)' % ((CN,) * 8)],
+    ensures=[
+        # the functional clauses (appended when absent / replaced in place) are proved on append / insert /
+        # replace_child; their composition through the parser interface is checked by the bounded history driver
+        ('materialised', 'self.element._traversal_parent is None'),
+        ('sep', 'sep(self)'),
+    ],
+    raises={n: {} for n in ('HL7apyException', 'ValueError', 'TypeError', 'IndexError', 'KeyError', 'AttributeError')},
+    modifies=None,
+    properties=[],      # not run: 6 call-site obligations stay undecided behind the parser interface's havoc (DESIGN 8)
 )
